@@ -25,6 +25,21 @@ class C14:
         v = gv.strat("v", False, True)
         return st.tuples(st.sampled_from(HOSTS), v).map(lambda p: {"host": p[0], "value": gv.resolve(p[1], [])})
 
+    def fixed_cases(self, ctx):
+        one, onef, true = ["i", "1"], ["f", "3ff0000000000000"], ["b", 1]
+        two, twof = ["i", "2"], ["f", "4000000000000000"]
+        vals = [
+            # tuples that compare equal but hold different kinds: each must come back as it went in
+            ["L", [["T", [one, two]], ["T", [onef, twof]], ["T", [true, two]], ["T", [one, two]]]],
+            ["T", [["T", [["i", "0"]]], ["T", [["f", "0000000000000000"]]], ["T", [["b", 0]]], ["T", [["f", "8000000000000000"]]]]],
+            # very many containers of one kind in a single value (flat, not nested)
+            ["L", [["D", []]] * 2100], ["L", [["L", []]] * 2100], ["T", [["T", []]] * 2100], ["L", [["D", [[one, two]]]] * 2500],
+            ["L", [["S", []]] * 2100],
+        ]
+        for h in HOSTS:
+            for v in vals:
+                yield {"host": h, "value": v}
+
     def strata(self, ctx):
         v = gv.strat("v", False, True)
         return [["host:" + h, v.map(lambda t, h=h: {"host": h, "value": gv.resolve(t, [])}), 1] for h in HOSTS]
